@@ -22,6 +22,11 @@ CFG = {
         "Leptos.Action.C17_multi_independent",
         "Leptos.Action.C17_multi_records",
         "Leptos.Action.C17_multi_version",
+        "Leptos.Action.C17_suppressed_dispatch_noop",
+        "Leptos.Action.C17_disposed_handle_inert",
+        "Leptos.Action.C17_dispose_transparent",
+        "Leptos.Action.C17_disposed_no_new_dispatch",
+        "Leptos.Action.C17_multi_suppressed_disposed_noop",
         "Leptos.Action.runIdle_is_run",
         "Leptos.Action.M.runIdle_is_run",
     ],
@@ -29,18 +34,23 @@ CFG = {
     "harness_bin": "c17",
     "n": {"quick": 3000, "thorough": 150000},
     "exhaustive": {"quick": False, "thorough": False},
-    "trivial_tags": ["plain", "arc", "arc-local", "arc-unsync", "arena", "arena-local", "arena-unsync",
-                     "multi-arc", "multi-arena", "init-value"],
+    "trivial_tags": ["plain", "init-value", "arc", "arc-local", "arc-unsync", "arena", "arena-local", "arena-unsync",
+                     "arena-unsync-local", "server-arc", "server-arena", "server-arc-xpath", "server-arena-xpath",
+                     "multi-arc", "multi-arena", "server-multi-arc", "server-multi-arena"],
     "rule": "a case is one history of dispatch/abort/drop-handle/ready/poll/clear ops on one real action run on the harness-owned "
             "executor. Exhaustive small scope (independent of the seed, on every run): for 1, 2 and 3 overlapping dispatches every "
             "assignment of a script (complete | abort | abort-then-ready | ready-then-abort | drop-handle-then-ready | never) to each "
             "dispatch x every interleaving of the scripts' events x four polling modes (each event processed at once; nothing polled "
             "until the end, FIFO; nothing polled until the end, LIFO; tasks parked first then polled one by one - in the last three a poll "
             "may find the abort message and the result together and the abort arm must win), 4 overlapping dispatches with complete|abort scripts in every order and mode, `clear` at every position for 1-2 dispatches, the analogous enumeration for multi-actions (cancel / "
-            "dispatch_sync) - rotating over ArcAction/Action x dispatch/dispatch_local/new_unsync and ArcMultiAction/MultiAction; "
+            "dispatch_sync); disposal of the handle / clean-up of its owner at every position and suppression of resource loading switched on/off "
+            "around every event (1-3 dispatches, with clear / dispatch_sync), - rotating over ArcAction / Action (new, new_local, new_unsync, "
+            "new_unsync_local) / leptos_server ArcServerAction / ServerAction (with and without a ServerActionError context, for the same and for "
+            "another path) x dispatch / dispatch_local (mixed within a case) x Ok / Err results, and ArcMultiAction / MultiAction / "
+            "ArcServerMultiAction / ServerMultiAction; "
             "then n seeded random histories (up to 8 dispatches, up to 4 overlapping). The whole scope is not declared exhaustive "
             "because the random part is sampled. distinct = distinct op sequence; non-trivial = the case has at least one tag other "
-            "than its kind / `plain` (overlap, abort-before-ready, abort-after-ready, race-abort-first, race-ready-first, drop-handle, clear*, out-of-order, "
+            "than its kind / `plain` (overlap, abort-before-ready, abort-after-ready, race-abort-first, race-ready-first, drop-handle, suppressed-dispatch, dispose-*, dispatch-after-dispose, clear-after-dispose, dispatch-local,  clear*, out-of-order, "
             "cancel*, dsync, multi)",
     "trusted": [
         "futures-channel oneshot (Sender::send / drop wake the receiver's task; a receiver whose sender was dropped without a value "
@@ -50,12 +60,17 @@ CFG = {
         "reactive_graph signals (ArcRwSignal update/get_untracked, Memo over in_flight) and the arena (ArenaItem) - exercised, not modelled beyond read/write",
         "hx_common::sched (the controlled executor) and any_spawner's custom-executor hook",
     ],
-    "modelled": ["ArcAction::dispatch / dispatch_local (identical bodies), ActionAbortHandle::abort / drop, ArcAction::clear, pending/version/value/input",
+    "modelled": ["ArcAction::dispatch / dispatch_local (identical bodies; both used, also mixed on one action), ActionAbortHandle::abort / drop, "
+                 "ArcAction::clear, pending/version/value/input; is_suppressing_resource_load() (dispatch is a no-op)",
                  "ArcMultiAction::dispatch / dispatch_sync, ArcSubmission::cancel, submissions/version",
-                 "Action / MultiAction / Submission (arena wrappers) - same model",
-                 "NOT covered: leptos_server::ServerAction / ServerMultiAction (thin wrappers: ArcAction::new_with_value(err, |i| S::run_on_client(i)) "
-                 "+ Deref; driving them needs a hand-written ServerFn + Client implementation), is_suppressing_resource_load() == true (dispatch is a no-op), "
-                 "disposal of the owner while dispatches are in flight"],
+                 "Action / MultiAction / Submission (arena wrappers, every constructor) - same model, plus disposal of the handle (explicit or by "
+                 "clean-up of the owner) while dispatches are in flight: dispatch panics before touching anything (MultiAction: silently nothing), "
+                 "clear does nothing, the tasks run on and are observed through signals obtained earlier under a surviving owner",
+                 "leptos_server ArcServerAction / ServerAction / ArcServerMultiAction / ServerMultiAction driven through a hand-made ServerFn and a "
+                 "staged Client (the request completes when the harness says so, with Ok or a ServerFnError in its wire encoding): Deref "
+                 "forwarding, run_on_client as the action function, initial value from a ServerActionError context (decode_err) - same model",
+                 "NOT covered: disposal of the observers' own owner (nothing is left to observe); the server half of the server function "
+                 "(C13); ServerActionError produced by a real integration (the harness builds it with ServerFnUrlError::to_url)"],
     "assumptions": ["one thread; the dispatched futures have no side effects other than producing their value",
                     "`dispatched` is never written by the code (is_latest is always true) - the model keeps the field and proves it irrelevant"],
     "manifest": {
@@ -66,7 +81,7 @@ CFG = {
                 "abort-race witness as a regression theorem) and for the independence of multi-action records; tied to the code by a differential run of the real ArcAction/Action/ArcMultiAction/MultiAction "
                 "on a controlled executor against the compiled model, exhaustive for <= 3 overlapping dispatches",
         "design_ref": "DESIGN.md §7 C17",
-        "note": "model hand-written, faithfulness checked by correspondence; ServerAction wrapper not driven",
+        "note": "model hand-written, faithfulness checked by correspondence",
         "technique": "Lean 4 proof (state-machine invariants) + regression witness for the repaired defect + differential correspondence under all schedules",
     },
 }
